@@ -722,8 +722,13 @@ def gen_op(rng, w: World, stats) -> Optional[str]:
             return f"el:{l}:{','.join(pick_args(o, nargs()))}"
         if k in ("ib", "ia", "rw") and attached:
             l, o = rng.choice(attached)
-            forbid = () if rng.random() < 0.05 else (l,)
+            forbid = () if rng.random() < 0.08 else (l,)
             a = pick_args(o.parent, nargs(), forbid=forbid)
+            if not forbid and rng.random() < 0.6:
+                # the target itself among the arguments, NOT in first place: the call is refused (ValueError) - and must then have
+                # touched nothing, in particular not the arguments before the offending one
+                a = a + [l] if rng.random() < 0.5 else a[:1] + [l] + a[1:]
+                stats["arg:target-among-arguments"] += 1
             return f"{k}:{l}:{','.join(a)}"
         if k == "wr" and attached:
             l, o = rng.choice(attached)
